@@ -244,11 +244,11 @@ _SF_RULE = ("one case = a generated world (0-2 resources, pools cap 1-8, buffers
 _PROFILE = {"waits": 0, "mutex": 1, "queueing": 2, "pool": 3, "wakeup": 4, "lifecycle": 5, "buffer": 6, "queues": 7, "condition": 8, "recording": 9, "growth": 10, "mixed": 11}
 
 
-def _sf(pid, main, extra, headline, minobs, rule_tail, quick=4000, thorough=300000):
-    jobs = [J(f"sf-{main}", "simfuzz", "rel", _PROFILE[main], quick, thorough, timeout=60)]
+def _sf(pid, main, extra, headline, minobs, rule_tail, quick=4000, thorough=1500000):
+    jobs = [J(f"sf-{main}", "simfuzz", "rel", _PROFILE[main], quick, thorough, timeout=60, chunk=2500)]
     for e in extra:
-        jobs.append(J(f"sf-{e}", "simfuzz", "rel", _PROFILE[e], quick // 4, thorough // 6, timeout=60))
-    jobs.append(J(f"sf-{main}-asan", "simfuzz", "asan", _PROFILE[main], quick // 8, thorough // 20, timeout=120))
+        jobs.append(J(f"sf-{e}", "simfuzz", "rel", _PROFILE[e], quick // 4, thorough // 6, timeout=60, chunk=2500))
+    jobs.append(J(f"sf-{main}-asan", "simfuzz", "asan", _PROFILE[main], quick // 8, thorough // 20, timeout=120, chunk=1000))
     PROPS[pid] = {"engines": ENG, "jobs": jobs, "rule": _SF_RULE + rule_tail, "headline": headline,
                   "min_observed": {"quick": minobs}, "assumptions": _SF_ASSUME, "key_prefixes": [pid + "/"]}
 
